@@ -570,6 +570,14 @@ ULP = 2.0 ** -52
 UNDERFLOW = -745.0      # np.exp(x) == 0.0 for x < -745.13...
 
 
+def _exp(x):
+    """exp in doubles as numpy computes it: overflow gives inf instead of raising"""
+    try:
+        return math.exp(x)
+    except OverflowError:
+        return math.inf
+
+
 def close_roundtrip(orig, got, nonneg):
     """`got` is `orig` after log -> exp in doubles"""
     if same(orig, got):
@@ -663,7 +671,7 @@ def oracle_pset(ck, spec, route, order_expected):
                 return
             if p0.label in fl:
                 x = float(xs[list(fl).index(p0.label)])
-                want = math.exp(x) if s["nonneg"] else x
+                want = _exp(x) if s["nonneg"] else x
                 if not (abs(p1.value - want) <= 4 * ULP * abs(want)) or (s["nonneg"] and not p1.value > 0):
                     ck.violation("from-optimizer-wrong", f"{p0.label}: optimiser value {x!r} became {p1.value!r}, "
                                  f"expected {want!r}", case)
@@ -871,7 +879,7 @@ def run_opt_case(ck, case):
             return viol("history-row-length", f"history row {ri} has {len(row)} entries")
         for l, x in zip(order, row[1:]):
             s = by[l]
-            v = math.exp(x) if s["nonneg"] else float(x)      # the mapping back, from the statement
+            v = _exp(x) if s["nonneg"] else float(x)      # the mapping back, from the statement
             if s["expr"] is not None:
                 continue
             if s["vary"]:
@@ -892,7 +900,7 @@ def run_opt_case(ck, case):
             continue
         for l, x in zip(order, rows[ri][1:]):
             s = by[l]
-            v = math.exp(x) if s["nonneg"] else float(x)
+            v = _exp(x) if s["nonneg"] else float(x)
             rv = ref.get(l).value
             if not (close_roundtrip(rv, v, s["nonneg"]) or abs(v - rv) <= 8 * ULP * abs(rv)):
                 return viol("history-space", f"history row {ri} mapped back gives {l} = {v!r}, {name} have {rv!r}")
@@ -906,8 +914,8 @@ def run_opt_case(ck, case):
         s = by[l]
         if s["expr"] is not None:
             continue
-        v = math.exp(x) if s["nonneg"] else float(x)
-        if not (abs(q.get(l).value - v) <= 4 * ULP * abs(v)):
+        v = _exp(x) if s["nonneg"] else float(x)
+        if not (same(q.get(l).value, v) or abs(q.get(l).value - v) <= 4 * ULP * abs(v)):
             return viol("set-from-history", f"set_from_history(row {ri}) gives {l} = {q.get(l).value!r}, expected {v!r}")
     if not result.success:
         return result
